@@ -361,6 +361,23 @@ var c11Injectors = []c11Injector{
 		ms.Mods = append(ms.Mods, s1, s2)
 		return true
 	}},
+	// the same with submodules that the module does not include itself: it includes one submodule, which includes
+	// the others (the order in which those are met must not matter either)
+	{"groupings-shared-by-submodules-reached-through-another-submodule", false, func(r *core.Rng, ms *yang.ModSet) bool {
+		m := modA(ms)
+		bt := func() *yang.Stmt { return yang.S("belongs-to", m.Arg, yang.S("prefix", pfx(m))) }
+		s0 := yang.S("submodule", "shn-0", bt(), yang.S("include", "shn-1"), yang.S("include", "shn-3"), yang.S("include", "shn-2"), yang.S("leaf", "shn-leaf", yang.S("type", "string")))
+		s1 := yang.S("submodule", "shn-1", bt(), yang.S("include", "shn-3"),
+			yang.S("grouping", "wrapper", yang.S("container", "a", yang.S("status", "deprecated"), yang.S("uses", "shared"))))
+		s2 := yang.S("submodule", "shn-2", bt(), yang.S("include", "shn-3"),
+			yang.S("grouping", "wrapper2", yang.S("container", "b", yang.S("uses", "shared"))))
+		s3 := yang.S("submodule", "shn-3", bt(),
+			yang.S("grouping", "shared", yang.S("uses", "dep")),
+			yang.S("grouping", "dep", yang.S("status", "deprecated"), yang.S("leaf", "x", yang.S("type", "string"))))
+		addBody(m, yang.S("include", "shn-0"))
+		ms.Mods = append(ms.Mods, s0, s1, s2, s3)
+		return true
+	}},
 	{"list-key-names-no-leaf", false, func(r *core.Rng, ms *yang.ModSet) bool {
 		switch r.Intn(3) {
 		case 0:
